@@ -471,7 +471,7 @@ func genAuthPlan(r *rand.Rand, tier, focus string) *vfPlan {
 				st.C = "cert:last:ipcert"
 				st.User = pick(r, []string{"auto1", "auto1", "auto2", u})
 				st.Target = pick(r, vfPeerChoices)
-				if chance(r, 0.2) {
+				if chance(r, 0.3) {
 					// from the local host, claiming to forward for some other address
 					st.Target = "127.0.0.1"
 					st.L = append(st.L, "fwd:"+pick(r, vfPeerChoices))
@@ -488,6 +488,17 @@ func genAuthPlan(r *rand.Rand, tier, focus string) *vfPlan {
 				}
 				add(vfStep{Op: "clisend", Sess: from, A: "last:clitoken", Target: pick(r, vfSessNames)})
 			}
+		case x < 80 && focus == "C01" && chance(r, 0.4):
+			// a client certificate and a short-lived second-factor session of the same user; later both are presented together
+			cu := pick(r, vfHonestUsers)
+			add(vfStep{Op: "mintsession", Sess: "cs", User: cu, N: int64(AuthTypeU2F | AuthTypePassword)})
+			add(vfStep{Op: "certgen", Sess: "cs", User: cu, A: "x509", B: pick(r, []string{"user_p256_1", "user_rsa2048_2"}), D: "20h"})
+			ts := pick(r, vfSessNames)
+			add(vfStep{Op: "mintsession", Sess: ts, User: cu, N: int64(pick(r, []int{AuthTypeU2F, AuthTypeTOTP | AuthTypePassword, AuthTypeSymantecVIP})), D: pick(r, []string{"45s", "10m"})})
+			sessUser[ts] = cu
+			add(vfStep{Op: "attachcert", Sess: ts, C: "last:usercert:" + cu})
+			add(vfStep{Op: "advance", D: pick(r, []string{"61s", "11m", "1h"})})
+			add(vfStep{Op: "certgen", Sess: ts, User: cu, A: pick(r, []string{"ssh", "x509"}), B: pick(r, vfUserKeyNames)})
 		case x < 80 && focus != "C03":
 			// a user obtains a keymaster client certificate; some session then presents it (possibly
 			// a session of ANOTHER user: certificate and cookie disagree) on its following requests
